@@ -22,6 +22,8 @@ REGISTRY = {
     "C20": ("harness.eng_tokenbucket", "check"),
     "C19": ("harness.eng_bars", "check"),
     "C18": ("harness.eng_ws", "check"),
+    "C16": ("harness.eng_api", "check"),
+    "C17": ("harness.eng_api", "check"),
     "C14": ("harness.eng_runtime", "check"),
     "C15": ("harness.eng_runtime", "check"),
     **{c: ("harness.eng_dispatcher", "check") for c in ("C03", "C12", "C13")},
